@@ -1,68 +1,63 @@
-"""Regenerates MANIFEST.json from the table below (keeps it valid at all times)."""
+"""Regenerates MANIFEST.json from checks.d/Cxx.json (one file per claimed property) and
+not_applicable.json (reasons for unclaimed ones).  Keeps the manifest valid at all times."""
 import json
-import sys
 from pathlib import Path
 
 VERIF = Path(__file__).resolve().parent.parent
-
-CHECKS = {
-    # id: (engine, technique, level text, level note, design_ref)
-    "C01": ("engine",
-            "TLA+ model of the event loop (Engine.tla) model-checked with TLC; all programs of the bounded "
-            "model replayed on the real engine; recorded engine traces validated by TLC (EngineTrace.tla)",
-            "TLC exhaustively checks the C01 contract on the implementation-shaped engine model (all programs "
-            "with <=4-5 events, 3 ticks, handler fan-out 2, cancels, daemons, past emissions, end_time on/off); "
-            "every program of the bounded model is executed on the real Simulation and its delivery order "
-            "compared with the model; thousands of recorded executions (model programs and random larger ones, "
-            "all handler return forms, fast and instrumented loop) are validated record by record by TLC against "
-            "the contract.",
-            "Trusted: harness-side probe (class-level wrappers on Event/EventHeap), TLC, the time-rank abstraction. "
-            "Exhaustive only within the stated bounds; larger programs are sampled.",
-            "5/C01"),
-}
-
 ALL = [f"C{n:02d}" for n in range(1, 21)]
+DEFAULT_NA = "check not built yet (planned, see DESIGN.md section 6 build order)"
 
 
 def main():
-    checks = []
-    for pid, (engine, tech, text, note, ref) in CHECKS.items():
+    checks, engines = [], {}
+    for f in sorted((VERIF / "checks.d").glob("C*.json")):
+        c = json.loads(f.read_text())
+        pid = c["property_id"]
         checks.append({
             "property_id": pid,
             "quick_cmd": f"./vcheck {pid} --tier quick",
             "thorough_cmd": f"./vcheck {pid} --tier thorough",
             "evidence_file": f"/verif/evidence/{pid}.json",
             "replay_cmd_template": f"./vcheck {pid} --replay {{path}}",
-            "engine": engine,
-            "level_claimed": {"category": "model_checking", "text": text, "design_ref": ref},
-            "level_note": note,
-            "technique": tech,
+            "engine": c["engine"],
+            "level_claimed": {"category": c.get("category", "model_checking"), "text": c["text"],
+                              "design_ref": c.get("design_ref", "5/" + pid)},
+            "level_note": c["note"],
+            "technique": c["technique"],
         })
-    na = [{"property_id": p, "reason": "check not built yet in this round (planned, see DESIGN.md section 6 build order)"}
-          for p in ALL if p not in CHECKS]
+        e = engines.setdefault(c["engine"], {"name": c["engine"], "path": c.get("engine_path", "specs/" + c["engine"]),
+                                             "serves_properties": [], "kind_free_text": c.get("engine_kind", "TLA+ specs checked with TLC + Python conformance harness")})
+        e["serves_properties"].append(pid)
+    claimed = {c["property_id"] for c in checks}
+    na_file = VERIF / "not_applicable.json"
+    reasons = json.loads(na_file.read_text()) if na_file.exists() else {}
+    na = [{"property_id": p, "reason": reasons.get(p, DEFAULT_NA)} for p in ALL if p not in claimed]
     hooks = json.loads((VERIF / "hooks.json").read_text()) if (VERIF / "hooks.json").exists() else {}
     m = {
         "version": 1,
         "setup_cmd": "./setup.sh",
         "hooks": {
             "guard": "HAPPYSIM_VERIF",
-            "enable": "no source hooks: ./vcheck sets HAPPYSIM_VERIF=1 and installs class-level wrappers "
-                      "(harness/probe.py) inside its own process; /repo is imported from its working tree",
+            "enable": hooks.get("enable", "no source hooks: ./vcheck sets HAPPYSIM_VERIF=1 and installs class-level wrappers "
+                      "(harness/probe.py) inside its own process; /repo is imported from its working tree"),
             "baseline_off_cmd": "cd /repo && /venv/bin/python -m pytest -ra -q -p no:cacheprovider --timeout=900 "
                                 "--continue-on-collection-errors",
             "source_commits": hooks.get("source_commits", []),
             "add_only": True,
         },
-        "engines": [
-            {"name": "engine", "path": "specs/engine", "serves_properties": ["C01"],
-             "kind_free_text": "TLA+ specs (Engine, EngineContract, EngineTrace) checked with TLC + Python harness"},
-        ],
+        "engines": list(engines.values()),
         "checks": checks,
         "not_applicable": na,
         "notes": "All checks: TLC model checking of an implementation-shaped TLA+ spec + two-way conformance "
                  "(spec behaviours replayed into the real code; real traces validated by TLC). See DESIGN.md.",
     }
     (VERIF / "MANIFEST.json").write_text(json.dumps(m, indent=1) + "\n")
+    try:
+        import jsonschema
+    except ImportError:
+        print("MANIFEST.json written (jsonschema not available for validation)"); return
+    jsonschema.validate(m, json.loads(Path("/root/.vp/MANIFEST.schema.json").read_text()))
+    print(f"MANIFEST.json: {len(checks)} checks, {len(na)} not_applicable")
 
 
 if __name__ == "__main__":
